@@ -313,7 +313,12 @@ def make_config(cfg, extra_args=None):
             for a in tagref.render_v1(cfg["tagx"], cfg.get("rv", 0)):
                 args.append("--tags=%s" % a)
         else:
-            args.append("--tags=%s" % tagref.render_v2(cfg["tagx"], cfg.get("rv", 0)))
+            if cfg.get("tagform") == "terms":
+                # one --tags option per operand of a top-level 'and' (behave ANDs the options)
+                for term in tagref.render_v2_terms(cfg["tagx"], cfg.get("rv", 0)):
+                    args.append("--tags=%s" % term)
+            else:
+                args.append("--tags=%s" % tagref.render_v2(cfg["tagx"], cfg.get("rv", 0)))
     for n in cfg.get("names") or []:
         args.extend(["--name", n])
     for name in ("stdout", "stderr", "log"):
